@@ -21,11 +21,13 @@ import (
 	"k8s.io/apimachinery/pkg/api/resource"
 	metav1 "k8s.io/apimachinery/pkg/apis/meta/v1"
 	"k8s.io/apimachinery/pkg/types"
+	k8sfeature "k8s.io/apiserver/pkg/util/feature"
 	fwktype "k8s.io/kube-scheduler/framework"
 	"k8s.io/kubernetes/pkg/scheduler/framework"
 
 	"github.com/koordinator-sh/koordinator/apis/extension"
 	"github.com/koordinator-sh/koordinator/apis/thirdparty/scheduler-plugins/pkg/apis/scheduling/v1alpha1"
+	koordfeatures "github.com/koordinator-sh/koordinator/pkg/features"
 	"github.com/koordinator-sh/koordinator/pkg/scheduler/apis/config"
 	"github.com/koordinator-sh/koordinator/pkg/scheduler/plugins/elasticquota/core"
 	sim "github.com/koordinator-sh/koordinator/pkg/verifsim"
@@ -48,6 +50,7 @@ type qCfg struct {
 	Readers     int  `json:"readers"`
 	Migrator    bool `json:"migrator"`
 	Serial      bool `json:"serial"` // every burst has one op (strict sequential history)
+	Guarantee   bool `json:"guarantee"` // feature gate ElasticQuotaGuaranteeUsage (no quota lends; guaranteed = max(allocated, min))
 }
 
 type qOp struct {
@@ -458,6 +461,7 @@ func (quotaEngine) Generate(p *sim.Plan, g *sim.Rng) {
 	if p.Prop == "C02" {
 		cfg.Runtime = true
 	}
+	cfg.Guarantee = g.Bool(0.2)
 	big := g.Bool(0.2)
 	nOps := g.Range(8, 45)
 	if p.Tier == "thorough" {
@@ -476,11 +480,26 @@ func (quotaEngine) Generate(p *sim.Plan, g *sim.Rng) {
 		}
 		return false
 	}
+	// admission-focused plans: a small family of quotas, pods sized around the quotas' own min/max and the parent's
+	// remaining room, mostly strict (serial) scheduling attempts
+	admP := 0.15
+	if p.Prop == "C03" {
+		admP = 0.4
+	}
+	if g.Bool(admP) {
+		genAdmissionPlan(p, g, cfg, nOps)
+		return
+	}
 	// capacity first (so that runtime has something to divide)
 	nNodes := g.Range(1, 3)
+	tight := g.Bool(0.15) // a cluster smaller than the sum of minimums: zero and scaled runtimes
 	for i := 0; i < nNodes; i++ {
 		a := genRL(g, big, 8000, 64000)
 		a["memory"] *= 8
+		if tight {
+			a["cpu"] /= 8
+			a["memory"] /= 64
+		}
 		add(qOp{K: "node_add", N: fmt.Sprintf("n%d", i), Req: a})
 	}
 	qNames := []string{}
@@ -660,6 +679,119 @@ func (quotaEngine) Generate(p *sim.Plan, g *sim.Rng) {
 	p.SetOps(ops)
 }
 
+func genAdmissionPlan(p *sim.Plan, g *sim.Rng, cfg qCfg, nOps int) {
+	cfg.Serial = false
+	cfg.Guarantee = false
+	st := newQStore()
+	var ops []qOp
+	add := func(op qOp) bool {
+		if op.K == "schedule" || op.K == "barrier" {
+			ops = append(ops, op)
+			return true
+		}
+		if _, ok := st.apply(&op); ok {
+			ops = append(ops, op)
+			return true
+		}
+		return false
+	}
+	unit := int64(1000)
+	mem := int64(1) << uint(24+g.Intn(8))
+	total := rl{"cpu": unit * int64(g.Range(4, 40)), "memory": mem * int64(g.Range(4, 40))}
+	add(qOp{K: "node_add", N: "n0", Req: total})
+	frac := func(of rl, num, den int64) rl {
+		return rl{"cpu": of["cpu"] * num / den, "memory": of["memory"] * num / den}
+	}
+	// one parent with 2-3 leaves, optionally one more leaf at the root
+	pmax := frac(total, int64(g.Range(2, 12)), 10)
+	pmin := frac(pmax, int64(g.Range(0, 10)), 10)
+	add(qOp{K: "quota_create", Q: "par", Parent: extension.RootQuotaName, IsPar: true, Lent: g.Bool(0.6), Min: pmin, Max: pmax})
+	leaves := []string{}
+	nl := g.Range(2, 3)
+	for i := 0; i < nl; i++ {
+		max := frac(pmax, int64(g.Range(3, 15)), 10)
+		min := frac(pmin, int64(g.Range(0, 10)), int64(10*nl))
+		for _, d := range qDims {
+			if min[d] > max[d] {
+				min[d] = max[d]
+			}
+		}
+		name := fmt.Sprintf("leaf%d", i)
+		if add(qOp{K: "quota_create", Q: name, Parent: "par", Lent: g.Bool(0.6), Min: min, Max: max}) {
+			leaves = append(leaves, name)
+		}
+	}
+	if g.Bool(0.5) {
+		max := frac(total, int64(g.Range(2, 12)), 10)
+		if add(qOp{K: "quota_create", Q: "solo", Parent: extension.RootQuotaName, Lent: g.Bool(0.5), Min: frac(max, int64(g.Range(0, 10)), 10), Max: max}) {
+			leaves = append(leaves, "solo")
+		}
+	}
+	add(qOp{K: "barrier", Barr: true})
+	np := 0
+	var pods []string
+	for len(ops) < nOps+6 && len(leaves) > 0 {
+		x := g.Intn(100)
+		switch {
+		case x < 45:
+			q := st.quotas[leaves[g.Intn(len(leaves))]]
+			if q == nil {
+				continue
+			}
+			// request: a fraction of the quota's max, of its min, or of the parent's max — so that sums land on both sides of the limits
+			base := q.Max
+			switch g.Intn(4) {
+			case 0:
+				base = q.Min
+			case 1:
+				if pq := st.quotas[q.Parent]; pq != nil {
+					base = pq.Max
+				}
+			}
+			req := frac(base, int64(g.Range(1, 7)), 10)
+			if g.Bool(0.3) {
+				req["cpu"] += g.I64n(3) - 1
+				if req["cpu"] < 0 {
+					req["cpu"] = 0
+				}
+			}
+			name := fmt.Sprintf("p%d", np)
+			np++
+			if add(qOp{K: "pod_create", P: name, Q: q.Name, Req: req, NonPre: g.Bool(0.4)}) {
+				pods = append(pods, name)
+				add(qOp{K: "schedule", P: name, Fail: g.Bool(0.15), Serial: g.Bool(0.85)})
+			}
+		case x < 60:
+			if len(pods) > 0 {
+				add(qOp{K: "schedule", P: pods[g.Intn(len(pods))], Fail: g.Bool(0.15), Serial: g.Bool(0.85)})
+			}
+		case x < 72:
+			if len(pods) > 0 {
+				add(qOp{K: "pod_delete", P: pods[g.Intn(len(pods))]})
+			}
+		case x < 82:
+			names := append([]string{"par"}, leaves...)
+			q := st.quotas[names[g.Intn(len(names))]]
+			if q == nil {
+				continue
+			}
+			op := qOp{K: "quota_update", Q: q.Name, Parent: q.Parent, IsPar: q.IsPar, Lent: q.Lent, Min: q.Min, Max: q.Max, W: q.W}
+			if g.Bool(0.5) {
+				op.Max = frac(q.Max, int64(g.Range(8, 16)), 10)
+			} else {
+				op.Min = frac(q.Min, int64(g.Range(5, 15)), 10)
+			}
+			add(op)
+		case x < 88:
+			add(qOp{K: "node_update", N: "n0", Req: frac(total, int64(g.Range(5, 15)), 10)})
+		default:
+			add(qOp{K: "barrier", Barr: true})
+		}
+	}
+	p.SetCfg(cfg)
+	p.SetOps(ops)
+}
+
 // ---------------------------------------------------------------- execution
 
 type qSim struct {
@@ -671,6 +803,7 @@ type qSim struct {
 	busy   map[string]bool
 	// what the pod informer delivered last (the scheduler's view of a pod)
 	delivered map[string]*corev1.Pod
+	processed map[string]*corev1.Pod
 	schedQ    []qOp
 	bindQ     []func()
 	quotaAdding string
@@ -726,6 +859,20 @@ func (s *qSim) quotaKnown(pod *corev1.Pod) bool {
 // a pod cached in the default quota (its own quota was unknown when it was added)
 // that receives an event once its quota is known, before the periodic migration
 // moved it, hits the recorded defect family "parked-pod-event".
+// staleCycleObject: the scheduling cycle is about to use (Reserve/Unreserve) a copy of the pod whose requests or
+// quota label differ from the version the informer has already delivered to the plugin.
+func (s *qSim) staleCycleObject(pod *corev1.Pod) {
+	// processed = the version whose event the plugin's own handler has finished handling; the scheduling queue is fed by
+	// another listener of the same informer and may be ahead of or behind it
+	cur := s.processed[pod.Name]
+	if cur == nil {
+		return
+	}
+	if !eqRL(fromRL(core.PodRequests(cur)), fromRL(core.PodRequests(pod))) || cur.Labels[extension.LabelQuotaName] != pod.Labels[extension.LabelQuotaName] {
+		s.r.Tag("stale-pod-object")
+	}
+}
+
 func (s *qSim) aroundPodEvent(pod *corev1.Pod, fn func()) {
 	parked := s.parkedInDefault(pod)
 	if parked && s.busy["migrator"] {
@@ -760,6 +907,7 @@ func (s *qSim) deliver(ev qEvent) {
 			// the add of a pod overlapping the add of its own quota (tree map already updated, quotaInfoMap not yet)
 			overlap := s.quotaAdding != "" && s.quotaAdding == np.Labels[extension.LabelQuotaName]
 			s.pl.OnPodAdd(ev.new)
+			s.processed[np.Name] = np // no scheduling point between the handler's return and this line
 			if overlap || (s.quotaAdding != "" && s.quotaAdding == np.Labels[extension.LabelQuotaName]) {
 				s.r.Tag("pod-add-overlaps-own-quota-add")
 			}
@@ -774,19 +922,19 @@ func (s *qSim) deliver(ev qEvent) {
 			if d := s.pl.groupQuotaManager.GetQuotaInfoByName(extension.DefaultQuotaName); d != nil {
 				inDefault = d.IsPodExist(op)
 			}
-			if (inDefault || s.inFlight[np.Name]) && changed {
+			if inDefault && changed {
 				// a pod's requests change while an older copy of the pod object is still held by the default-quota
 				// pod cache (used later by MigratePod) or by the scheduling cycle (used later by Unreserve)
 				s.r.Tag("stale-pod-object")
 			}
-			s.aroundPodEvent(op, func() { s.pl.OnPodUpdate(ev.old, ev.new) })
+			s.aroundPodEvent(op, func() { s.pl.OnPodUpdate(ev.old, ev.new); s.processed[np.Name] = np })
 			if s.quotaAdding != "" && s.quotaAdding == np.Labels[extension.LabelQuotaName] {
 				s.r.Tag("pod-add-overlaps-own-quota-add")
 			}
 		case "delete":
 			op := ev.old.(*corev1.Pod)
 			delete(s.delivered, op.Name)
-			s.aroundPodEvent(op, func() { s.pl.OnPodDelete(ev.old) })
+			s.aroundPodEvent(op, func() { s.pl.OnPodDelete(ev.old); delete(s.processed, op.Name) })
 		}
 	case "node":
 		switch ev.kind {
@@ -847,13 +995,17 @@ func (s *qSim) cycle(op qOp, strict bool) {
 		return
 	}
 	var st *fwktype.Status
+	s.staleCycleObject(pod)
 	s.aroundPodEvent(pod, func() { st = s.pl.Reserve(context.TODO(), framework.NewCycleState(), pod, "node-0") })
+	s.staleCycleObject(pod) // evaluated on both sides of the call: the plugin may process an update while Reserve waits for the lock
 	if !st.IsSuccess() {
 		s.r.Fail("reserve", "", "Reserve failed: %v", st.Message())
 	}
 	bind := func() {
 		if op.Fail {
+			s.staleCycleObject(pod)
 			s.aroundPodEvent(pod, func() { s.pl.Unreserve(context.TODO(), framework.NewCycleState(), pod, "node-0") })
+			s.staleCycleObject(pod)
 			s.r.Event("unreserve %s", op.P)
 			s.inFlight[op.P] = false
 			return
@@ -861,7 +1013,9 @@ func (s *qSim) cycle(op qOp, strict bool) {
 		// the bind API call: succeeds only if the pod still exists unbound
 		cur := s.st.pods[op.P]
 		if cur == nil || cur.Node != "" {
+			s.staleCycleObject(pod)
 			s.aroundPodEvent(pod, func() { s.pl.Unreserve(context.TODO(), framework.NewCycleState(), pod, "node-0") })
+			s.staleCycleObject(pod)
 			s.r.Event("bind-conflict-unreserve %s", op.P)
 			s.r.Probe("bind-after-delete")
 			s.inFlight[op.P] = false
@@ -884,10 +1038,17 @@ func (s *qSim) cycle(op qOp, strict bool) {
 }
 
 func (quotaEngine) Execute(r *sim.Run) {
-	s := &qSim{r: r, st: newQStore(), queues: map[string][]qEvent{}, busy: map[string]bool{}, delivered: map[string]*corev1.Pod{}, inFlight: map[string]bool{}, foreign: map[string]bool{}, everScheduled: map[string]bool{}}
+	s := &qSim{r: r, st: newQStore(), queues: map[string][]qEvent{}, busy: map[string]bool{}, delivered: map[string]*corev1.Pod{}, processed: map[string]*corev1.Pod{}, inFlight: map[string]bool{}, foreign: map[string]bool{}, everScheduled: map[string]bool{}}
 	r.Plan.GetCfg(&s.cfg)
 	var ops []qOp
 	r.Plan.GetOps(&ops)
+	// process-global feature gate: runs are sequential within a worker process, restored at the end of the run
+	if err := k8sfeature.DefaultMutableFeatureGate.Set(fmt.Sprintf("%s=%v", koordfeatures.ElasticQuotaGuaranteeUsage, s.cfg.Guarantee)); err != nil {
+		r.HarnessFail("feature gate: %v", err)
+	}
+	defer func() {
+		_ = k8sfeature.DefaultMutableFeatureGate.Set(fmt.Sprintf("%s=false", koordfeatures.ElasticQuotaGuaranteeUsage))
+	}()
 	s.pl = newPlugin(s.cfg)
 	r.Sample("cfg %+v", s.cfg)
 
@@ -937,10 +1098,18 @@ func (quotaEngine) Execute(r *sim.Run) {
 					}
 					continue
 				}
+				var removedChild *mQuota
+				if s.cfg.Guarantee && (op.K == "quota_reparent" || op.K == "quota_delete") {
+					removedChild = s.st.quotas[op.Q]
+				}
 				evs, ok := s.st.apply(&op)
 				if !ok {
 					r.OpSkipped()
 					continue
+				}
+				if removedChild != nil && removedChild.Parent != extension.RootQuotaName {
+					// with ElasticQuotaGuaranteeUsage on, the old parent's allocated keeps the removed child's guaranteed amount
+					r.Tag("guarantee-gate-child-removed")
 				}
 				r.OpDone()
 				r.Sample("%s q=%s p=%s n=%s parent=%s", op.K, op.Q, op.P, op.N, op.Parent)
@@ -1129,7 +1298,7 @@ func (s *qSim) modelAggregates() map[string]*mAgg {
 		a.childReq = cr
 		r := addRL(rl{}, cr)
 		q := s.st.quotas[n]
-		if q != nil && !q.Lent {
+		if q != nil && (!q.Lent || s.cfg.Guarantee) {
 			for _, d := range qDims {
 				if q.Min[d] > r[d] {
 					r[d] = q.Min[d]
@@ -1384,6 +1553,10 @@ func (s *qSim) checkDifferential(live map[string]*core.QuotaInfoSummary, names [
 			if r.Prop == "C02" && s.cfg.Runtime {
 				cmp("runtime", a.Runtime, b.Runtime)
 				cmp("autoScaleMin", a.AutoScaleMin, b.AutoScaleMin)
+				if s.cfg.Guarantee {
+					cmp("guaranteed", a.Guaranteed, b.Guaranteed)
+					cmp("allocated", a.Allocated, b.Allocated)
+				}
 			}
 		}
 		if len(fresh) != len(live) {
@@ -1435,6 +1608,9 @@ func (s *qSim) checkRuntimeSharing(live map[string]*core.QuotaInfoSummary, burst
 				}
 				req[i] = rq
 				min[i] = fromRL(q.AutoScaleMin)[d]
+				if gd := fromRL(q.Guaranteed)[d]; s.cfg.Guarantee && gd > min[i] {
+					min[i] = gd // the guaranteed minimum: what is already allocated below the quota is never taken away
+				}
 				w[i] = fromRL(q.SharedWeight)[d]
 				rt[i] = fromRL(q.Runtime)[d]
 				lent[i] = q.AllowLentResource
